@@ -10,12 +10,12 @@
 // evaluated on the real code.
 //
 //	logdiff -driver <driver> -seed N -tier quick|thorough -report report.json
-//	        [-replay program.json] [-props C13,C14] [-strict] [-skip-known=true]
+//	        [-replay program.json] [-props C13,C14]
 //	        [-workers N] [-programs N] [-maxops N] [-keys keys.txt]
 //
-// Exit 0: no disagreement / property failure (the known finding
-// "seglog-zero-length-segment-after-create" is counted under known_findings and only fails the run
-// with -strict or -skip-known=false); exit 1: something failed; exit 2: the engine could not run.
+// Exit 0: no disagreement and no property failure; exit 1: something failed (there is no
+// known-finding downgrade any more: "known_findings" in the report stays {}); exit 2: the engine
+// could not run.  A built-in corpus of regression programs (see `corpus`) runs before the random ones.
 // Temp dirs: /tmp/logdiff-tmp-<pid>-*, removed on every exit path.
 package main
 
@@ -46,10 +46,9 @@ import (
 )
 
 const (
-	knownZeroLen = "seglog-zero-length-segment-after-create"
-	kFinished    = 1 << 20
-	maxEntryLen  = 8192
-	maxSlots     = 4
+	kFinished   = 1 << 20
+	maxEntryLen = 8192
+	maxSlots    = 4
 )
 
 // ---------------------------------------------------------------------------------------------
@@ -192,6 +191,17 @@ func (o *Op) UnmarshalJSON(b []byte) error {
 	return nil
 }
 
+// withOps copies a program (same seed, segment size, flags) with another op list.
+func (p *Program) withOps(ops []Op, tier string) *Program {
+	c := *p
+	c.Ops = append([]Op(nil), ops...)
+	c.Note = ""
+	if tier != "" {
+		c.Tier = tier
+	}
+	return &c
+}
+
 func isMutating(kind string) bool {
 	switch kind {
 	case "append", "commitN", "commit", "removeLTE", "removeGTE", "reset", "reopen":
@@ -206,7 +216,21 @@ type Program struct {
 	Tier        string `json:"tier"`
 	SegmentSize int    `json:"segmentSize"`
 	Ops         []Op   `json:"ops"`
+	AllPoints   bool   `json:"allPoints,omitempty"` // evaluate every crash point whatever the tier
 	Note        string `json:"note,omitempty"`
+}
+
+// corpus: regression programs that run first in every tier and for every seed, with all crash
+// points.  Entry 0 is the minimal program of the (repaired) finding
+// "seglog-zero-length-segment-after-create": a roll-over; every crash image must reopen.
+var corpus = []Program{
+	{Engine: "logdiff", Seed: 3433448078539403959, SegmentSize: 1235, AllPoints: true, Ops: []Op{
+		{Kind: "append", Seed: 1736286543, Len: 23, View: -1},
+		{Kind: "append", Seed: 1690342847, Len: 1212, View: -1}}},
+	{Engine: "logdiff", Seed: 11, SegmentSize: 1024, AllPoints: true, Ops: []Op{ // roll-over, reset, removeGTE below prev: all create paths
+		{Kind: "append", Seed: 1, Len: 500, View: -1}, {Kind: "append", Seed: 2, Len: 600, View: -1},
+		{Kind: "reset", I: 7, View: -1}, {Kind: "append", Seed: 3, Len: 40, View: -1},
+		{Kind: "removeGTE", I: 3, View: -1}, {Kind: "reopen", SS: 2000, View: -1}, {Kind: "append", Seed: 4, Len: 1976, View: -1}}},
 }
 
 // ---------------------------------------------------------------------------------------------
@@ -220,8 +244,6 @@ type config struct {
 	junkProb  float64
 	junkVars  int
 	c13, c14  bool
-	skipKnown bool
-	strict    bool
 	ptKeep    float64 // probability that a crash point is evaluated
 }
 
@@ -678,7 +700,6 @@ type imgResult struct {
 	outcome string // canonical OUTCOME json
 	class   string // ok|openFail|panic
 	openErr string
-	zeroLen bool
 	c14     string // "" = predicate holds (or not evaluated)
 	tamper  string
 }
@@ -686,11 +707,6 @@ type imgResult struct {
 // evalImage writes the image, opens it with the real code, digests it, evaluates C14, closes it.
 func (w *worker) evalImage(files map[string][]byte, ss int, ctx *c14ctx, verify bool) (res imgResult) {
 	w.syncImg(files)
-	for _, b := range files {
-		if len(b) == 0 {
-			res.zeroLen = true
-		}
-	}
 	var l *rlog.Log
 	func() {
 		defer func() {
@@ -854,7 +870,7 @@ func (r *runner) liveN() map[string]int {
 // point is the verifPoint callback for this runner's live directory.
 func (r *runner) point(name, path string, args []interface{}) {
 	base := filepath.Base(path)
-	num := strings.TrimSuffix(base, ".log")
+	num := strings.TrimSuffix(strings.TrimSuffix(base, ".tmp"), ".log")
 	arg := func() string {
 		if len(args) > 0 {
 			return fmt.Sprint(args[0])
@@ -869,18 +885,29 @@ func (r *runner) point(name, path string, args []interface{}) {
 	case "sync:header", "removeGTE:lowered":
 		step = "store " + num + " " + arg()
 	case "create:created":
-		step = "create " + num
+		step = "tmpcreate " + num // base is <N>.log.tmp (O_CREATE|O_TRUNC: empty, durable at once)
 		r.durable[base] = []byte{}
 	case "create:truncated":
-		step = "truncate " + num + " " + arg()
+		step = "tmptruncate " + num + " " + arg()
 		if n, err := strconv.Atoi(arg()); err == nil && n >= 0 {
 			r.durable[base] = make([]byte, n)
 		}
 	case "create:zeroed":
-		step = "zero16 " + num
+		step = "tmpzero16 " + num
 	case "create:synced":
-		step = "fsync " + num
+		step = "tmpfsync " + num
 		r.durable[base] = r.readFile(path)
+	case "create:renamed":
+		// path is the FINAL name; rename is durable at once: the durable bytes move with the file
+		step = "rename " + num
+		tmp := base + ".tmp"
+		if d, ok := r.durable[tmp]; ok {
+			r.durable[base] = d
+		} else {
+			r.durable[base] = r.readFile(path)
+		}
+		delete(r.durable, tmp)
+		delete(r.lastRead, tmp)
 	case "reset:removed", "removeLTE:removed", "removeGTE:removed":
 		step = "remove " + num
 		delete(r.durable, base)
@@ -897,7 +924,7 @@ func (r *runner) point(name, path string, args []interface{}) {
 }
 
 func (r *runner) copyPoint(name string, k int) {
-	if r.cfg.ptKeep < 1 && r.rng.Float64() >= r.cfg.ptKeep {
+	if keep := r.cfg.ptKeep; keep < 1 && !r.res.prog.AllPoints && r.rng.Float64() >= keep {
 		return
 	}
 	dur := make(map[string][]byte, len(r.durable))
@@ -1273,6 +1300,38 @@ func (r *runner) diffs(cp *crashPt) (out []fileDiff, total int) {
 	return out, total
 }
 
+// strayTmp invents a leftover "<K>.log.tmp": K is an existing segment, the next segment name or
+// anything; the content is empty, zeros or random bytes.
+func strayTmp(rng *rand.Rand, files map[string][]byte, ss int) (string, []byte) {
+	nums := namesAscending(func() []string {
+		var ns []string
+		for n := range files {
+			ns = append(ns, n)
+		}
+		return ns
+	}())
+	var k uint64
+	switch {
+	case len(nums) > 0 && rng.Intn(3) == 0:
+		k = nums[rng.Intn(len(nums))]
+	case len(nums) > 0 && rng.Intn(2) == 0:
+		k = nums[len(nums)-1] + 1 + uint64(rng.Intn(3))
+	default:
+		k = uint64(rng.Intn(40))
+	}
+	var b []byte
+	switch rng.Intn(3) {
+	case 0:
+		b = []byte{}
+	case 1:
+		b = make([]byte, ss)
+	default:
+		b = make([]byte, 1+rng.Intn(ss))
+		rng.Read(b)
+	}
+	return fmt.Sprintf("%d.log.tmp", k), b
+}
+
 var hashSeed = maphash.MakeSeed()
 
 // imgKey identifies the byte content of an image (within one process run).
@@ -1362,18 +1421,27 @@ func (r *runner) evalCrashes(A, B absLog, committed uint64, curSS int) {
 			f := &fail{Kind: "C14", Prop: "C14", OpIndex: cp.at,
 				Note: fmt.Sprintf("%s image at point %s (k=%d) of op %d (%s), reopened with SegmentSize %d: %s", which, cp.point, cp.k, cp.at, cp.opKind, ss, ir.c14),
 				Real: rawOf(ir.outcome)}
-			if ir.class == "openFail" && ir.zeroLen && cp.point == "create:created" {
-				f.FindingKey = knownZeroLen
-				f.Note += " [known: createSegment leaves a zero-length file between O_CREATE and Truncate; mmap of length 0 fails with EINVAL, so Open fails until the file is removed by hand]"
-			}
 			r.res.addFail(f)
+		}
+		if cp.point == "op:finished" && r.rng.Intn(4) == 0 {
+			// a stray <K>.log.tmp (left behind by some earlier crash): Open must ignore it
+			name, content := strayTmp(r.rng, cp.kill, ss)
+			if _, exists := cp.kill[name]; !exists {
+				kill2 := make(map[string][]byte, len(cp.kill)+1)
+				for n, b := range cp.kill {
+					kill2[n] = b
+				}
+				kill2[name] = content
+				cp.kill = kill2
+				cp.dur[name] = content
+				r.res.hist["stray-tmp-in-crash-image"]++
+			}
 		}
 		verify := r.rng.Intn(8) == 0
 		kill := r.w.evalImage(cp.kill, ss, ctx, verify)
 		rec.Kill = kill.outcome
 		r.res.nKill++
 		note("kill", kill)
-		knownHere := kill.c14 != "" && kill.class == "openFail" && kill.zeroLen && cp.point == "create:created"
 		fds, total := r.diffs(cp)
 		if total == 0 {
 			// durable bytes == current bytes in every file: the only power image IS the kill image
@@ -1404,9 +1472,6 @@ func (r *runner) evalCrashes(A, B absLog, committed uint64, curSS int) {
 				r.res.nPower++
 				note("power("+modeNames[mode]+")", ir)
 			}
-		}
-		if knownHere && ctx != nil {
-			r.res.known[knownZeroLen]++
 		}
 		r.res.hist["crash:"+cp.point]++
 		r.res.crashes = append(r.res.crashes, rec)
@@ -1710,6 +1775,11 @@ func (r *runner) junkDirs(segs []rlog.VerifSegment, ss int) {
 		for _, f := range keep {
 			img[fmt.Sprintf("%d.log", f.name)] = f.bytes
 			mfiles = append(mfiles, map[string]interface{}{"name": f.name, "cap": len(f.bytes), "hdr": f.hdr, "units": f.units})
+		}
+		if r.rng.Intn(3) == 0 {
+			name, content := strayTmp(r.rng, img, jss)
+			img[name] = content
+			r.res.hist["stray-tmp-in-junk-dir"]++
 		}
 		ir := r.w.evalImage(img, jss, nil, false)
 		req := map[string]interface{}{"engine": "seglog", "mode": "img", "ss": jss, "files": mfiles}
@@ -2092,7 +2162,7 @@ func (w *worker) runProgram(p *Program, g *gen) *progResult {
 
 // shrink drops ops one at a time (from the end, then from the start) while the same failure stays.
 func (w *worker) shrink(p *Program, sig string, budget int) *Program {
-	cur := &Program{Engine: p.Engine, Seed: p.Seed, Tier: p.Tier, SegmentSize: p.SegmentSize, Ops: append([]Op(nil), p.Ops...)}
+	cur := p.withOps(p.Ops, "")
 	still := func(c *Program) bool {
 		res := w.runProgram(c, nil)
 		for _, f := range res.fails {
@@ -2107,7 +2177,7 @@ func (w *worker) shrink(p *Program, sig string, budget int) *Program {
 			return false
 		}
 		budget--
-		c := &Program{Engine: cur.Engine, Seed: cur.Seed, Tier: cur.Tier, SegmentSize: cur.SegmentSize, Ops: append([]Op(nil), ops...)}
+		c := cur.withOps(ops, "")
 		if still(c) {
 			cur = c
 			return true
@@ -2190,9 +2260,8 @@ func main() {
 	reportPath := flag.String("report", "", "report.json path")
 	replay := flag.String("replay", "", "replay one saved program")
 	props := flag.String("props", "C13,C14", "direct predicates to evaluate")
-	strict := flag.Bool("strict", false, "known findings also make the exit code 1")
-	skipKnown := flag.Bool("skip-known", true, "count the known zero-length-segment finding separately (does not fail the run)")
-	workers := flag.Int("workers", 0, "parallel workers (0 = min(NumCPU,12))")
+	_ = flag.Bool("skip-known", true, "no-op (kept for old command lines): every failure makes the exit code 1")
+	workers := flag.Int("workers", 8, "parallel workers")
 	nprog := flag.Int("programs", 0, "number of programs (0 = tier default)")
 	maxOps := flag.Int("maxops", 0, "max ops per program (0 = tier default)")
 	keysPath := flag.String("keys", "", "also write the list of distinct coverage keys to this file")
@@ -2200,8 +2269,8 @@ func main() {
 
 	defer guard()
 	start := time.Now()
-	cfg := &config{skipKnown: *skipKnown, strict: *strict}
-	programs := 400
+	cfg := &config{}
+	programs := 250 // quick: ~17-35 s with 8 workers depending on disk load (the fsync per file inside the real Open dominates)
 	if *tier == "thorough" {
 		programs = 8000
 	}
@@ -2231,8 +2300,8 @@ func main() {
 	nw := *workers
 	if nw <= 0 {
 		nw = runtime.NumCPU()
-		if nw > 12 {
-			nw = 12
+		if nw > 8 {
+			nw = 8
 		}
 	}
 	if _, err := os.Stat(*driverPath); err != nil {
@@ -2269,10 +2338,11 @@ func main() {
 		results = []*progResult{res}
 		fmt.Printf("replay %s: %d ops, %d crash points\n", *replay, len(res.outs), len(res.crashes))
 	} else {
-		if programs < nw {
-			nw = programs
+		total := len(corpus) + programs
+		if total < nw {
+			nw = total
 		}
-		results = make([]*progResult, programs)
+		results = make([]*progResult, total)
 		var next int64 = -1
 		var wg sync.WaitGroup
 		for k := 0; k < nw; k++ {
@@ -2284,10 +2354,14 @@ func main() {
 				defer w.drv.close()
 				for {
 					i := int(atomic.AddInt64(&next, 1))
-					if i >= programs {
+					if i >= total {
 						return
 					}
-					ps := int64(splitmix(uint64(*seed)*0x10001+uint64(i)) >> 1)
+					if i < len(corpus) { // regression corpus first (order of results is by index)
+						results[i] = w.runProgram(corpus[i].withOps(corpus[i].Ops, *tier), nil)
+						continue
+					}
+					ps := int64(splitmix(uint64(*seed)*0x10001+uint64(i-len(corpus))) >> 1)
 					rng := rand.New(rand.NewSource(ps))
 					p := &Program{Engine: "logdiff", Seed: ps, Tier: *tier, SegmentSize: 1024 + rng.Intn(3073)}
 					if rng.Intn(4) == 0 { // multiples of 8 and the extremes get extra weight
@@ -2371,15 +2445,12 @@ func main() {
 		w := newWorker(99, cfg, *driverPath)
 		for n, pf := range fails {
 			f := pf.f
-			known := f.FindingKey == knownZeroLen && cfg.skipKnown
-			if !known || cfg.strict {
-				exit = 1
-			}
+			exit = 1 // any property failure or disagreement fails the run
 			prog := pf.p
 			if *replay == "" && f.Kind != "junk" && n < 12 {
 				prog = w.shrink(pf.p, f.sig(), 150)
 				// re-run the shrunk program to report ITS failure
-				r2 := w.runProgram(&Program{Engine: prog.Engine, Seed: prog.Seed, Tier: prog.Tier, SegmentSize: prog.SegmentSize, Ops: prog.Ops}, nil)
+				r2 := w.runProgram(prog.withOps(prog.Ops, ""), nil)
 				for _, f2 := range r2.fails {
 					if f2.sig() == f.sig() {
 						f = f2
@@ -2391,9 +2462,6 @@ func main() {
 			if f.Prop != "" {
 				pr := f.Prop
 				d.PropertyFailed = &pr
-			}
-			if known {
-				d.Occurrences = rep.KnownFindings[knownZeroLen]
 			}
 			if d.Real == nil {
 				d.Real = json.RawMessage("null")
